@@ -15,7 +15,9 @@ for d in sorted(glob.glob(V + "/seeded/*")):
     m = json.load(open(d + "/meta.json"))
     det = m.get("detected_by", {})
     if m.get("benign"):
-        checks = sorted(det) or [m["property"]]
+        # (every related check was run against the benign changes when they were stored; the regression repeats the
+        # property's own check and any check that raised an alarm then)
+        checks = [m["property"]] + [c for c, v in det.items() if (v["violations"] > 0 or v["rc"] != 0) and c != m["property"]]
     else:
         checks = [m["property"]] + [c for c, v in det.items() if v["violations"] > 0 and c != m["property"]][:1]
     jobs.append((name, checks))
